@@ -169,6 +169,8 @@ std::string rand_dur(Rng &r)
 	static const char *du[] = {"+1d", "-1d", "+1mo", "-1mo", "+1y", "-3w", "+2d", "+12h", "-90m", "+3600s", "1d", "xx", "", "+1mo1d",
 				   "-1y2mo", "/1d", "+5bd", "-2bd", "+100d", "1w", "--1d", "+0d",
 				   /* lines that start like durations and then fail */
+				   /* zero quantities under a sign, counts that overflow */
+				   "-0d", "-0s", "-1h0m", "+0mo", "-0w", "99999999999d", "+9999999999999999999999h", "-99999999999mo", "2147483648s",
 				   "1d xyz", "2h 30 minutes", "+1mo +x", "1d 2", "3w 1d", "+1d -1d", "1y 2mo 3d junk"};
 	return du[r.below(sizeof(du) / sizeof(*du))];
 }
